@@ -330,6 +330,13 @@ func (c *Ctx) Eq(a, b *Term) *Term {
 	if a.IsConst() && b.Op == "ite" && b.A[1].IsConst() && b.A[2].IsConst() {
 		return c.Ite(b.A[0], c.Eq(b.A[1], a), c.Eq(b.A[2], a))
 	}
+	if a.S.K == KInt {
+		if x, y, rel := c.natPair(a, b); rel == 2 {
+			return c.Eq(x, y)
+		} else if rel != 0 {
+			return c.False()
+		}
+	}
 	// concat vs const / concat: split bytewise when shapes match
 	if a.Op == "concat" && b.Op == "concat" && a.A[0].S == b.A[0].S {
 		return c.And(c.Eq(a.A[0], b.A[0]), c.Eq(a.A[1], b.A[1]))
@@ -703,7 +710,52 @@ func (c *Ctx) icmp(op string, a, b *Term) *Term {
 	if a == b {
 		return c.Bool(op == "<=")
 	}
+	if x, y, rel := c.natPair(a, b); rel != 0 {
+		switch {
+		case rel == 2 && op == "<":
+			return c.BVUlt(x, y)
+		case rel == 2:
+			return c.BVUle(x, y)
+		default:
+			return c.Bool(rel < 0) // rel -1: a < b always; rel 1: a > b always
+		}
+	}
 	return c.mk(op, BoolSort, a, b)
+}
+
+// natPair recognises comparisons between unsigned images of bit-vectors (bv2nat(x) vs bv2nat(y) or a constant), which
+// are decided in the bit-vector theory (solvers are very slow on bv2nat of wide vectors).
+// rel: 0 not applicable; 2 compare x,y as unsigned bit-vectors of equal width; -1 a < b for all values; 1 a > b for all values.
+func (c *Ctx) natPair(a, b *Term) (x, y *Term, rel int) {
+	an, bn := a.Op == "bv2nat", b.Op == "bv2nat"
+	switch {
+	case an && bn:
+		x, y = a.A[0], b.A[0]
+		w := x.S.W
+		if y.S.W > w {
+			w = y.S.W
+		}
+		return c.ZExt(x, w-x.S.W), c.ZExt(y, w-y.S.W), 2
+	case an && b.IsConst():
+		x = a.A[0]
+		if b.V.Sign() < 0 {
+			return nil, nil, 1
+		}
+		if b.V.BitLen() > x.S.W {
+			return nil, nil, -1
+		}
+		return x, c.BV(b.V, x.S.W), 2
+	case bn && a.IsConst():
+		y = b.A[0]
+		if a.V.Sign() < 0 {
+			return nil, nil, -1
+		}
+		if a.V.BitLen() > y.S.W {
+			return nil, nil, 1
+		}
+		return c.BV(a.V, y.S.W), y, 2
+	}
+	return nil, nil, 0
 }
 func (c *Ctx) ILt(a, b *Term) *Term { return c.icmp("<", a, b) }
 func (c *Ctx) ILe(a, b *Term) *Term { return c.icmp("<=", a, b) }
